@@ -7,7 +7,7 @@
 (* The expected attributes are recomputed here FROM THE PAYLOAD BYTES      *)
 (* ALONE (counts, discriminators, configuration keys are read out of P).   *)
 (***************************************************************************)
-EXTENDS UbxWalk
+EXTENDS UbxStr
 
 Traces == JsonDeserialize(IOEnv.TRACE_FILE)
 
@@ -34,6 +34,14 @@ JudgeC02(e) ==
          ELSE IF e.attrs[d][1] # r.attrs[d].n THEN e.prop \o ":attribute-name-or-order:" \o r.attrs[d].n \o "/" \o e.attrs[d][1]
          ELSE e.prop \o ":value:" \o r.attrs[d].n
 
+\* beyond the listed properties: str(msg) is the rendering UbxStr!StrOf prescribes for the parse result (reported as a NOTE)
+StrNote(e) ==
+    IF ~("str" \in DOMAIN e) \/ e.strok # 1 \/ e.out # "msg" THEN ""
+    ELSE LET r == Parse(e.m, e.cls, e.id, e.pbf = 1, e.P) IN
+         IF r.err # "" \/ ~Conforms(r, e.P) THEN ""
+         ELSE LET exp == StrOf(e.cls, e.id, e.P, r, e.ftok) IN
+              IF exp = "" THEN "unmodelled" ELSE IF exp = e.str THEN "" ELSE "EXT:str:" \o Identity(e.cls, e.id, e.P)
+
 Note(e) ==
     LET dn == SelectDefName(e.m, e.cls, e.id, e.P) IN
     IF dn = "uncovered" THEN "uncovered-variant-selector"
@@ -45,8 +53,11 @@ Next == /\ verdict = "pending"
         /\ LET e == Traces[tid]
                v == JudgeC02(e)
                n == Note(e)
+               x == IF v = "ok" THEN StrNote(e) ELSE ""
            IN /\ verdict' = v
               /\ (v # "ok" => PrintT("V " \o ToString(tid) \o " " \o v))
+              /\ (x \notin {"", "unmodelled"} => PrintT("E " \o ToString(tid) \o " " \o x))
+              /\ (x = "unmodelled" => PrintT("N " \o ToString(tid)))
               /\ (n # "" => PrintT("D " \o ToString(tid) \o " " \o n))
         /\ UNCHANGED tid
 Spec == Init /\ [][Next]_<<tid, verdict>>
